@@ -320,6 +320,34 @@ def _evaluate_reject(case):
                         f"Algebra{_desc(case['B'])} and returned {kd.show(kd.to_dict(res[1]))} instead of raising",
                         exc=how)
     counters["rejected:" + res[1].split(":")[0]] = 1
+    # ... also the N-th time: after the left operand's algebra has generated this operator for the same pair of key patterns
+    # through a legitimate call, and as first / later argument of a function registered on one of the algebras
+    if len(x.algebra) == len(y.algebra):
+        twin = kd.mk(x.algebra, list(y.keys()), [F(1 + i, 2) for i in range(len(y.keys()))])
+        warm = _observe(lambda: getattr(x, op)(twin))
+        again = _observe(lambda: getattr(x, op)(y))
+        if again[0] == "ok":
+            raise Violation("different-algebras-rejected", "binary-operator", f"{op} rejected operands of Algebra{_desc(case['A'])} and Algebra{_desc(case['B'])} "
+                            f"on the first call but combined them after a legitimate call with the same key patterns "
+                            f"(warm-up {warm[0]}): returned {kd.show(kd.to_dict(again[1]))}", exc=how)
+        counters["rejected-after-warmup"] = 1
+
+        def f2(a, b):
+            return a * b + a
+
+        def f3(a, b, c):
+            return a * b - c
+        xa = x.algebra
+        own = kd.mk(xa, list(x.keys()), [F(3 + i, 2) for i in range(len(x.keys()))])
+        for what, fn in (("f(a, b) registered on the algebra of b, a foreign", lambda: xa.register(f2)(y, own)),
+                         ("f(a, b) registered on the algebra of a, b foreign", lambda: xa.register(f2)(own, y)),
+                         ("f(a, b, c) registered (symbolic=True), a foreign", lambda: xa.register(f3, symbolic=True)(y, own, x)),
+                         ("f(a, b, c) registered (symbolic=True), c foreign", lambda: xa.register(f3, symbolic=True)(own, x, y))):
+            r_ = _observe(fn)
+            if r_[0] == "ok":
+                raise Violation("different-algebras-rejected", "registered-function", f"{what}: operands of Algebra{_desc(case['A'])} and "
+                                f"Algebra{_desc(case['B'])} were combined: {kd.show(kd.to_dict(r_[1]))}", exc=how)
+        counters["rejected-in-registered"] = 1
     ra, rb = RefAlgebra(case["A"]), RefAlgebra(case["B"])
     same_pqr = sorted(ra.sig) == sorted(rb.sig)
     return Info(same_pqr, labels, case, counters)
